@@ -8,7 +8,7 @@
    all indexes: go-git's decoder inverts go-git's encoder, for versions 2, 3 and 4,
    any names (short, >= 0xFFF bytes, shared prefixes), stages, flags and timestamps. *)
 From Coq Require Import List NArith ZArith Bool String.
-From GoGit Require Import Base.Out Model.IndexFile Proofs.C12.
+From GoGit Require Import Base.Out Model.IndexFile Proofs.C12 Proofs.C12Size.
 Import ListNotations.
 Local Open Scope N_scope.
 
@@ -30,6 +30,15 @@ Theorem C12_entry_roundtrip : forall hs ver last e rest,
   exists b, encode_entry hs ver last e = Ok b /\ read_entry hs ver last (b ++ rest) = Ok (e, rest) /\ (1 <= List.length b)%nat.
 Proof. exact entry_roundtrip. Qed.
 Print Assumptions C12_entry_roundtrip.
+
+(* a V2/V3 entry occupies exactly git's ondisk_ce_size: (40 + hash + flags [+ flags2] + namelen + 8) & ~7,
+   so git finds the next entry where go-git put it (1..8 NULs of padding, long names included) *)
+Theorem C12_entry_size_git : forall hs ver last e b,
+  ver = 2 \/ ver = 3 -> List.length (e_hash e) = hs ->
+  encode_entry hs ver last e = Ok b ->
+  List.length b = git_ondisk_size hs (e_ita e || e_skip e) (List.length (e_name e)).
+Proof. exact encode_entry_v23_size. Qed.
+Print Assumptions C12_entry_size_git.
 
 (* git's offset varint (V4 strip lengths): ReadVariableWidthInt inverts WriteVariableWidthInt *)
 Theorem C12_varint : forall n rest, n < 4294967296 -> read_varint (varint n ++ rest) = Ok (n, rest).
